@@ -48,7 +48,7 @@ def run(ck):
     ck.traces += j.judged
     for rej in j.rejects:
         r = recs[rej[0] - 1]
-        how = "neither succeeded nor failed within 120 s" if r.get("exit") == 124 else ("panicked" if r.get("exit") == 101 else rej[1])
+        how = "neither succeeded nor failed within 30 s" if r.get("exit") == 124 else ("panicked" if r.get("exit") == 101 else rej[1])
         ck.violation("nest:%s:%s:depth=%d" % (r["shape"], r["api"], r["depth"]), "%s — shape %s nested %d deep through %s (exit %s, signal %s)" % (how, r["shape"], r["depth"], r["api"], r.get("exit"), r.get("signal")), r)
     for r in recs:
         if r.get("maxstates", 0) > 1002:
